@@ -113,7 +113,7 @@ RULE = ('Cases are JSON: liq {t,p} (0.01..350 degC, max(psat67, psat97)..100 MPa
         'formulations\' saturation / region-2-3 boundary / 100 MPa), sat {t} on 0.01..374.15 degC, tsat {p} on sat(0.01)..22.12 MPa, '
         'bnd {fn,t,p} states a relative 1e-9/1e-6/1e-3 (and farther) inside and outside every limit of the documented ranges of '
         'cowat, supst, sat, tsat plus the limits themselves, reg {t,p} with t <= 350 or t > 374.15 degC and p at least 0.5 % away from '
-        'both formulations\' curves, ssf {h[],p1,p2} with enthalpies 0..3.5 MJ/kg and separator pressures 0.1..5 MPa (p2 < p1 or '
+        'both formulations\' curves, ssf {h[],p1,p2} with enthalpies 0..3.5 MJ/kg and separator pressures 0.1..5 MPa (p2 below or above p1, or '
         'absent). Each kind: dense grid (enum) + Hypothesis floats + explicit end points. Non-trivial = not one of the three stored '
         'states per routine of tests/test_t2thermo.py; distinct = distinct case JSON. Tolerance oracle (a) IFC-67 vs IAPWS-97: '
         'per sub-range table CAL_LIQ / CAL_STM / CAL_SAT of maxima measured on the unchanged tree (liquid density 0.04-0.23 %, '
@@ -303,6 +303,10 @@ def ssf_case(draw):
     if draw(st.booleans()) and p1 > 0.1e6 * (1 + 1e-9):
         f = draw(st.one_of(st.floats(0.0, 1.0), st.sampled_from([0.0, 0.5, 1 - 1e-6])))
         p2 = clamp(0.1e6 + f * (p1 - 0.1e6), 0.1e6, p1 * (1 - 1e-9))
+        if draw(st.integers(0, 3)) == 0:
+            # the quantifier says "separator pressures 0.1..5 MPa in one and two stages": a second stage at a
+            # higher pressure than the first is unusual but inside it
+            p2 = draw(st.one_of(st.floats(0.1e6, 5e6), st.sampled_from([5e6, 2e6, 0.5e6])))
     return {'k': 'ssf', 'h': hs, 'p1': p1, 'p2': p2}
 
 
@@ -360,6 +364,9 @@ def grid_ssf(nh, np_):
             for f in (0.0, 0.25, 0.5, 0.9):
                 p2 = 0.1e6 + f * (p1 - 0.1e6)
                 if p2 < p1: yield {'k': 'ssf', 'h': hs, 'p1': p1, 'p2': p2}
+            for f in (0.3, 1.0):
+                p2 = p1 + f * (5e6 - p1)
+                if p2 > p1: yield {'k': 'ssf', 'h': hs, 'p1': p1, 'p2': p2}
     return g
 
 
@@ -657,9 +664,10 @@ def case_reg(R, T, I, t, p):
 
 
 def case_ssf(R, T, I, hs, p1, p2):
-    ok = len(hs) >= 1 and all(0.0 <= h <= 3.5e6 for h in hs) and 0.1e6 <= p1 <= 5e6 and (p2 is None or 0.1e6 <= p2 < p1)
+    ok = len(hs) >= 1 and all(0.0 <= h <= 3.5e6 for h in hs) and 0.1e6 <= p1 <= 5e6 and (p2 is None or 0.1e6 <= p2 <= 5e6)
     if not ok or list(hs) != sorted(hs): R.label('out-of-domain'); return
     R.label('ssf:two-stage' if p2 is not None else 'ssf:one-stage'); R.nontrivial()
+    if p2 is not None and p2 > p1: R.label('ssf:second-stage-at-higher-pressure')
     for p in (p1, p2):
         if p is None: continue
         with R.lib('tsat'):
